@@ -436,6 +436,10 @@ func (env *SpecEnv) local(name string) (SVal, bool) {
 		v := fv.load(env.st, l)
 		t, ok := v.(*Term)
 		if !ok {
+			// a pointer to a whole heap object is its reference
+			if pl, isLoc := v.(*Loc); isLoc && pl.Kind == rootHeap && len(pl.Path) == 0 {
+				return SVal{T: pl.Ref, Typ: et}, true
+			}
 			env.fail("local %q holds a structured pointer; not usable in specs", name)
 		}
 		return SVal{T: t, Typ: et}, true
@@ -788,7 +792,14 @@ func (env *SpecEnv) call(e *SExpr) SVal {
 			env.fail("len of %s", x.Typ)
 		case "ite":
 			cnd := fv.evalBool(env, args[0])
-			a, b := env.unify(env.eval(args[1]), env.eval(args[2]))
+			ea, eb := env.eval(args[1]), env.eval(args[2])
+			if ea.NoCall {
+				return ea
+			}
+			if eb.NoCall {
+				return eb
+			}
+			a, b := env.unify(ea, eb)
 			return SVal{T: Ite(cnd, a.T, b.T), Typ: a.Typ, Math: a.Math}
 		case "visited", "atstart":
 			if env.visited == nil {
@@ -887,6 +898,21 @@ func (env *SpecEnv) call(e *SExpr) SVal {
 			// two slices share their backing array
 			a, b := env.eval(args[0]), env.eval(args[1])
 			return SVal{T: And(Eq(Field(a.T, 0), Field(b.T, 0)), Not(Eq(Field(a.T, 0), IntLit(0)))), Typ: types.Typ[types.Bool]}
+		case "same":
+			// logical identity of two values of the same type (all fields, whole arrays); Go's ==
+			// compares arrays element by element, which does not give congruence under
+			// uninterpreted functions
+			a, b := env.eval(args[0]), env.eval(args[1])
+			if a.NoCall {
+				return a
+			}
+			if b.NoCall {
+				return b
+			}
+			if a.T == nil || b.T == nil || a.T.Sort != b.T.Sort {
+				env.fail("same() needs two values of one type")
+			}
+			return SVal{T: Eq(a.T, b.T), Typ: types.Typ[types.Bool]}
 		case "fresh":
 			// the slice is nil or its backing array was allocated during this call
 			x := env.eval(args[0])
@@ -1117,6 +1143,9 @@ func (env *SpecEnv) applyGoFunc(f SVal, args []*SExpr) SVal {
 		names = append(names, pname{p.Name(), p.Type()})
 	}
 	i := 0
+	if f.Recv != nil && f.Recv.NoCall {
+		return *f.Recv
+	}
 	if f.Recv != nil {
 		rv := *f.Recv
 		// pure functions depend on the pointee: a pointer receiver is read through
@@ -1137,6 +1166,9 @@ func (env *SpecEnv) applyGoFunc(f SVal, args []*SExpr) SVal {
 	}
 	for j, a := range args {
 		v := env.eval(a)
+		if v.NoCall {
+			return v // an argument is the result of a call that did not happen on this path
+		}
 		if i+j < len(names) {
 			v = env.coerce(v, names[i+j].typ)
 			if pt, ok := types.Unalias(names[i+j].typ).Underlying().(*types.Pointer); ok {
@@ -1150,10 +1182,14 @@ func (env *SpecEnv) applyGoFunc(f SVal, args []*SExpr) SVal {
 		ats = append(ats, fv.pureArg(env.st, v.T, names, i+j)...)
 	}
 	rs := sig.Results()
-	if rs.Len() != 1 {
-		env.fail("pure function %s must have exactly one result to be used in specs", sfn.String())
+	if rs.Len() == 0 {
+		env.fail("pure function %s has no result", sfn.String())
 	}
 	rt := rs.At(0).Type()
+	if rs.Len() > 1 {
+		// in a spec, a pure function with several results denotes its first result
+		return SVal{T: fv.ctx.Func("pure0_"+sfn.String(), fv.ctx.SortOf(rt), ats...), Typ: rt}
+	}
 	return SVal{T: fv.ctx.Func("pure_"+sfn.String(), fv.ctx.SortOf(rt), ats...), Typ: rt}
 }
 
